@@ -2,6 +2,7 @@ mod util;
 mod arr;
 mod c01;
 mod c02;
+mod c02s;
 mod c03;
 mod c05;
 mod c06;
@@ -68,6 +69,7 @@ fn exec_line(ctx: &mut Ctx, line: &str) -> String {
             }
         }
         "c03" => c03::exec(line),
+        "c02s" => c02s::exec(line),
         "c18" => c18::exec(line),
         "c19" => {
             let (v, m) = parse_line(line);
@@ -141,6 +143,7 @@ fn main() {
             match prop.as_str() {
                 "c01" => c01::generate(&a.tier, a.seed),
                 "c02" => c02::generate(&a.tier, a.seed),
+                "c02s" => c02s::generate(&a.tier, a.seed),
                 "c03" => c03::generate(&a.tier, a.seed),
                 "c04" => c01::generate_c04(&a.tier, a.seed),
                 "c05" => c05::generate(&a.tier, a.seed),
@@ -189,29 +192,56 @@ fn main() {
         Some(f) => Box::new(std::io::BufWriter::new(std::fs::File::create(f).unwrap())),
         None => Box::new(std::io::BufWriter::new(std::io::stdout())),
     };
-    // isolation: run every case block in a child process (allocation failures inside external codecs abort the process)
-    if argv.iter().any(|x| x == "--isolate") || (argv[0] == "run" && a.rest.first().map(|p| p == "c15").unwrap_or(false)) {
+    // supervision: the cases run in a child process (`--no-isolate`, one flushed output line per request). The parent watches
+    // the child's output: a crash of the child (allocation failures inside external codecs abort the process) makes the
+    // request it was executing `abort`, no progress for VERIF_STALL_SECS seconds (a deadlock, a livelock) makes it `timeout`;
+    // the rest of that case block is `skip` and a new child continues with the next block.
+    if !argv.iter().any(|x| x == "--no-isolate") {
         let exe = std::env::current_exe().unwrap();
         let base = std::env::var("VERIF_WORK").unwrap_or_else(|_| "/verif/work".into());
         std::fs::create_dir_all(&base).ok();
-        let mut blocks: Vec<Vec<String>> = vec![];
-        for l in &lines {
-            let second = l.split_whitespace().nth(1).unwrap_or("");
-            if second == "cfg" || blocks.is_empty() || !(second == "op") { blocks.push(vec![l.clone()]); } else { blocks.last_mut().unwrap().push(l.clone()); }
-        }
-        for (bi, b) in blocks.iter().enumerate() {
-            let inp = format!("{}/iso_{}_{}.in", base, std::process::id(), bi);
-            let outp = format!("{}/iso_{}_{}.out", base, std::process::id(), bi);
-            std::fs::write(&inp, b.join("\n") + "\n").unwrap();
-            let st = std::process::Command::new(&exe).args(["replay", &inp, "--out", &outp, "--no-isolate"]).stderr(std::process::Stdio::null()).status();
-            let done: Vec<String> = std::fs::read_to_string(&outp).unwrap_or_default().lines().map(|s| s.to_string()).collect();
-            let ok = st.map(|s| s.success()).unwrap_or(false);
-            for (i, l) in b.iter().enumerate() {
-                if i < done.len() { writeln!(w, "{}", done[i]).unwrap(); }
-                else if i == done.len() && !ok { writeln!(w, "{} -> abort", l).unwrap(); }
-                else { writeln!(w, "{} -> skip", l).unwrap(); }
-            }
+        let stall = std::time::Duration::from_secs(std::env::var("VERIF_STALL_SECS").ok().and_then(|s| s.parse().ok()).unwrap_or(90));
+        let continues = |l: &str| matches!(l.split_whitespace().nth(1).unwrap_or(""), "op" | "end" | "hop");
+        let mut pos = 0usize;
+        let mut round = 0usize;
+        let mut stalls = 0usize;
+        while pos < lines.len() {
+            // three requests that never returned settle the matter: the rest of the run is not executed
+            if stalls >= 3 { for l in &lines[pos..] { writeln!(w, "{} -> skip", l).unwrap(); } break; }
+            let inp = format!("{}/sup_{}_{}.in", base, std::process::id(), round);
+            let outp = format!("{}/sup_{}_{}.out", base, std::process::id(), round);
+            round += 1;
+            std::fs::write(&inp, lines[pos..].join("\n") + "\n").unwrap();
+            let _ = std::fs::remove_file(&outp);
+            let mut child = std::process::Command::new(&exe).args(["replay", &inp, "--out", &outp, "--no-isolate"])
+                .stderr(if std::env::var("VERIF_PANIC_MSG").is_ok() || std::env::var("VERIF_ERR_MSG").is_ok() { std::process::Stdio::inherit() } else { std::process::Stdio::null() })
+                .spawn().expect("spawn harness child");
+            let (mut last_size, mut last_change) = (0u64, std::time::Instant::now());
+            let mut stalled = false;
+            let status = loop {
+                match child.try_wait() { Ok(Some(st)) => break Some(st), Ok(None) => {}, Err(_) => break None }
+                let size = std::fs::metadata(&outp).map(|m| m.len()).unwrap_or(0);
+                if size != last_size { last_size = size; last_change = std::time::Instant::now(); }
+                else if last_change.elapsed() > stall { stalled = true; let _ = child.kill(); let _ = child.wait(); break None; }
+                std::thread::sleep(std::time::Duration::from_millis(20));
+            };
+            let text = std::fs::read_to_string(&outp).unwrap_or_default();
+            // only complete lines count (the child may have been killed in the middle of a write)
+            let mut done: Vec<&str> = text.split('\n').collect();
+            if !text.ends_with('\n') { done.pop(); } else if done.last() == Some(&"") { done.pop(); }
+            let done: Vec<&str> = done.into_iter().take(lines.len() - pos).collect();
+            for d in &done { writeln!(w, "{}", d).unwrap(); }
+            pos += done.len();
+            let ok = !stalled && status.map(|s| s.success()).unwrap_or(false);
             let _ = std::fs::remove_file(&inp); let _ = std::fs::remove_file(&outp);
+            if pos >= lines.len() { break; }
+            if ok && done.is_empty() { writeln!(w, "{} -> abort", lines[pos]).unwrap(); pos += 1; continue; }
+            if ok { continue; }
+            // the request that was executing, then the rest of its block
+            if stalled { stalls += 1; }
+            writeln!(w, "{} -> {}", lines[pos], if stalled { "timeout" } else { "abort" }).unwrap();
+            pos += 1;
+            while pos < lines.len() && continues(&lines[pos]) { writeln!(w, "{} -> skip", lines[pos]).unwrap(); pos += 1; }
         }
         w.flush().unwrap();
         return;
